@@ -99,19 +99,20 @@ type xaCmd struct {
 }
 
 type run struct {
-	names    []string
-	d0       map[string][]string
-	expected map[string][]string // tables after the same statements through the bare driver
-	res      atenv.BranchResult
-	journal  []memsql.Entry
-	final    map[string][]string
-	branches []*faketc.Branch
-	status   map[int64]branch.BranchStatus
-	fired    bool
-	faultSeq int64
-	cbErr    bool
-	left     map[string]string
-	phase2   int64 // clock when phase two began
+	names        []string
+	d0           map[string][]string
+	expected     map[string][]string // tables after the same statements through the bare driver
+	res          atenv.BranchResult
+	journal      []memsql.Entry
+	final        map[string][]string
+	branches     []*faketc.Branch
+	status       map[int64]branch.BranchStatus
+	fired        bool
+	faultSeq     int64
+	cbErr        bool
+	left         map[string]string
+	leftPhaseOne map[string]string // XA branches the engine holds when phase one has returned
+	phase2       int64             // clock when phase two began
 }
 
 func isCounted(e *memsql.Entry) bool {
@@ -214,6 +215,7 @@ func execute(c Case, plan string) (*run, *pt.Failure) {
 		r.fired = true
 	}
 	// phase two, as the coordinator would drive it
+	r.leftPhaseOne = unquoted(env.Srv.XABranches())
 	r.phase2 = jclock.Tick()
 	r.branches = env.TC.Branches()
 	if c.Target == "fresh" {
@@ -235,13 +237,13 @@ func execute(c Case, plan string) (*run, *pt.Failure) {
 	time.Sleep(time.Millisecond)
 	r.journal = env.Srv.Journal()
 	r.final = env.Srv.Snapshot(atenv.Schema, r.names...)
-	r.left = env.Srv.XABranches()
+	r.left = unquoted(env.Srv.XABranches())
 	_ = refFailed
 	return r, nil
 }
 
 var last struct {
-	prepared bool
+	prepared  bool
 	faultAtXA bool
 }
 
@@ -259,6 +261,9 @@ func judge(c Case, plan string, r *run) *pt.Failure {
 		return sb.String()
 	}
 	sig := func(s string) string { return "C17/" + s + "/" + c.Branch.Mode + "/" + planClass(plan) }
+	if os.Getenv("VERIF_DEBUG") != "" {
+		fmt.Printf("DEBUG judge: left after phase one %v, fired=%v faultSeq=%d\n%s\n", r.leftPhaseOne, r.fired, r.faultSeq, info())
+	}
 	for _, st := range r.res.Stmts {
 		if strings.HasPrefix(st.Err, "PANIC") {
 			return pt.Failf(sig("panic"), "a statement panicked in the caller's goroutine: %s\n%s", st.Err, info())
@@ -363,6 +368,24 @@ func judge(c Case, plan string, r *run) *pt.Failure {
 			return pt.Failf(sig("commit-after-failed-phase-one"), "%q was committed although phase one failed\n%s", x, info())
 		}
 	}
+	// "any failure before a successful prepare rolls the branch back": when the caller has its error, the
+	// database holds no unprepared branch any more (judged when the injected failure is the first thing that
+	// went wrong, so that the clean-up itself ran unhindered)
+	if strings.HasPrefix(plan, "db:") && r.fired && failedBeforePrepare {
+		first := true
+		for _, e := range r.journal {
+			if e.Err != "" && e.Seq < r.faultSeq && isCounted(&e) {
+				first = false
+			}
+		}
+		if first {
+			for x, st := range r.leftPhaseOne {
+				if st != "PREPARED" && byIdent[x] != nil {
+					return pt.Failf(sig("failed-branch-not-rolled-back"), "phase one failed before XA PREPARE and returned, the database still holds %q in state %s\n%s", x, st, info())
+				}
+			}
+		}
+	}
 	// outcome
 	switch {
 	case r.cbErr:
@@ -418,6 +441,15 @@ func judge(c Case, plan string, r *run) *pt.Failure {
 }
 
 func state(m map[string]string, x string) string { return m[x] }
+
+// unquoted strips the quotes the engine keeps around XA identifiers.
+func unquoted(m map[string]string) map[string]string {
+	out := map[string]string{}
+	for k, v := range m {
+		out[strings.Trim(k, "'`\"")] = v
+	}
+	return out
+}
 
 func prepareSucceededBefore(r *run, cmds map[string][]xaCmd) bool {
 	for _, cs := range cmds {
